@@ -216,6 +216,19 @@ static bool observe_state(mismatch *mm, bool counting, const char *after)
         if (!probe_a) { probe_a = (char *) vf_xmalloc(2); probe_a[0] = 'a'; probe_a[1] = 0; probe_x = (char *) vf_xmalloc(2); probe_x[0] = 'x'; probe_x[1] = 0; }
         bool se = binson_parser_string_equals(p, probe_a);
         se = binson_parser_string_equals(p, probe_x) || se;
+        if (s && s->bptr && in_buffer(s->bptr, s->bsize)) {
+            /* continuation probe: the current string value followed by the document bytes after it up to the end of the buffer and one more
+             * character (cut at the first 0x00): a comparison that runs on the argument's length walks off the end of the input buffer */
+            const uint8_t *end = vf_live_bufptr(&L) + L.len;
+            size_t n = (size_t) (end - s->bptr), k = 0;
+            char *probe_c = (char *) vf_xmalloc(n + 2);
+            while (k < n && s->bptr[k]) { probe_c[k] = (char) s->bptr[k]; k++; }
+            if (k == n) probe_c[k++] = 'x';
+            probe_c[k] = 0;
+            (void) binson_parser_string_equals(p, probe_c);     /* the answer is C03's business; here only the reads matter (ASan) */
+            if (counting) vf_count(CT_OBS_CALLS, 1);
+            free(probe_c);
+        }
         (void) binson_parser_get_depth(p);
         if (counting) vf_count(CT_OBS_CALLS, 8);
         if (e1 != BINSON_ERROR_NONE) {
